@@ -98,7 +98,7 @@ fn observe(rr: &RRule) -> Result<Obs, String> {
     };
     let conformant = match refmatch::parse(&text, ParseOpts::LENIENT) {
         Ok(p) if p == *rr => Back::Same,
-        Ok(p) => Back::Different(refmatch::print(&p)),
+        Ok(p) => Back::Different(refmatch::rule_to_json(&p).to_string()),
         Err(e) => Back::Error(e),
     };
     let zbus = match catch(|| MatchRule::try_from(text.as_str()).map(|r| (r == z, r.to_string()))) {
@@ -145,8 +145,10 @@ fn part_a(report: &Report, tier: Tier) {
             report.nontrivial(hash64(&("single", refmatch::print(&rr))));
             report.outcome(&format!("single-key: conformant parser reads {}", obs.conformant.class()));
             report.outcome(&format!("single-key: zbus reads {}", obs.zbus.class()));
-            report.sample(json!({"rule": refmatch::rule_to_json(&rr), "display": obs.text,
-                "conformant": obs.conformant.class(), "zbus": obs.zbus.class()}));
+            if matches!(o, Opt::Arg(0, _) | Opt::Type(MType::Signal)) {
+                report.sample(json!({"rule": refmatch::print(&rr), "display": obs.text,
+                    "conformant": obs.conformant.class(), "zbus": obs.zbus.class()}));
+            }
             for (clause, back, who) in [(CL_CONF, &obs.conformant, "a conformant parser"), (CL_ZBUS, &obs.zbus, "MatchRule::try_from")] {
                 if *back != Back::Same {
                     report.violation(
@@ -185,6 +187,7 @@ fn part_a(report: &Report, tier: Tier) {
     par_for(n.div_ceil(CHUNK), 1, |ci| {
       let mut local: Vec<u64> = vec![];
       let mut n_eval = 0u64;
+      let mut oc = [0u64; 3];
       for ri in ci * CHUNK..((ci + 1) * CHUNK).min(n) {
         let mut idx = vec![];
         enumerate::nth_product(&dims, ri, &mut idx);
@@ -238,16 +241,30 @@ fn part_a(report: &Report, tier: Tier) {
             );
         }
         // the daemon's one-matcher-per-argument-index restriction, recorded only
-        if ri % 997 == 0 && obs.conformant == Back::Same {
+        if obs.conformant == Back::Same && obs.zbus == Back::Same {
             if refmatch::parse(&obs.text, ParseOpts::DAEMON).is_err() {
-                report.outcome("product: valid by the grammar but refused by dbus-daemon (argument index used twice / more than 16 tokens)");
+                oc[0] += 1;
             } else {
-                report.outcome("product: round trip through both parsers");
+                oc[1] += 1;
             }
+        } else {
+            oc[2] += 1;
         }
       }
       report.eval(n_eval);
       report.nontrivial_many(local);
+      for (i, name) in [
+          "product: read back as the same rule by both parsers, but dbus-daemon itself refuses the string (same argument index in argN and argNpath/arg0namespace, or more than 16 tokens)",
+          "product: read back as the same rule by both parsers",
+          "product: not read back as the same rule (explained by a single-key finding, or reported)",
+      ]
+      .iter()
+      .enumerate()
+      {
+          if oc[i] > 0 {
+              report.outcome_n(name, oc[i]);
+          }
+      }
     });
 }
 
